@@ -59,6 +59,7 @@ type Prog struct {
 	Trailers        []wire.KV `json:"trailers,omitempty"`
 	Close           bool      `json:"close,omitempty"`
 	ResetFirst      bool      `json:"response_reset_first,omitempty"` // the handler starts with ctx.Response.Reset() (what AbortWithMsg / NotFound do)
+	DelHeader       string    `json:"del_header,omitempty"`           // the handler ends with Response.Header.Del(<framing header>), as a proxy stripping hop-by-hop fields does
 	Salt            byte      `json:"salt"`
 	Flavor          int       `json:"flavor"`
 	body            []byte
@@ -186,6 +187,9 @@ func handler(c context.Context, ctx *app.RequestContext) {
 	}
 	if p.StatusAfterBody {
 		ctx.SetStatusCode(p.Status)
+	}
+	if p.DelHeader != "" {
+		ctx.Response.Header.Del(p.DelHeader)
 	}
 }
 
@@ -406,6 +410,15 @@ func genCase(t *rapid.T) *Case {
 			p.Close = true
 		}
 		p.ResetFirst = rapid.IntRange(0, 3).Draw(t, "responseResetFirst") == 0
+		if p.Mode != mChunkedWriter && rapid.IntRange(0, 3).Draw(t, "delFramingHeader") == 0 {
+			p.DelHeader = rapid.SampledFrom([]string{"Transfer-Encoding", "Content-Length", "transfer-encoding"}).Draw(t, "delHeader")
+			if p.Mode == mStreamKnown && p.DelHeader == "Content-Length" {
+				// the length a handler declares for a stream lives only in that header: a handler that
+				// deletes it again has withdrawn the length (hertz then sends no body); not a way of
+				// producing a response that the statement lists
+				p.DelHeader = "Transfer-Encoding"
+			}
+		}
 		c.Reqs = append(c.Reqs, r)
 		c.Progs = append(c.Progs, p)
 	}
